@@ -23,8 +23,9 @@ import (
 // ---------------------------------------------------------------- supervised evaluation
 
 type rQuery struct {
-	Pkg  int    `json:"pkg"`  // index into Sources
-	Func string `json:"func"` // function name, or Type.Method
+	Pkg  int    `json:"pkg"`           // index into Sources
+	Func string `json:"func"`          // function name, or Type.Method
+	Sub  string `json:"sub,omitempty"` // a package below that one (c<i>/<sub>) instead
 }
 
 type rJob struct {
@@ -317,7 +318,10 @@ func init() {
 			}
 			emit(rAnswer{I: i, Start: true})
 			p := b.Pkg(q.Pkg)
-			if p == nil {
+			if p != nil && q.Sub != "" {
+				p = b.U.Package(fmt.Sprintf("%s/c%d/%s", batchMod, q.Pkg, q.Sub))
+			}
+			if p == nil || fmt.Sprintf("%v", p) == "<nil>" {
 				emit(rAnswer{I: i, Out: "loaderr"})
 				continue
 			}
@@ -554,7 +558,7 @@ func (c *progCase) literalOnly() bool {
 
 func (c *progCase) Run() string {
 	if !c.have {
-		ans := superviseJob(rJob{Sources: []map[string]string{{"p.go": c.source()}}, Queries: []rQuery{{0, fmt.Sprintf("F%d", c.Q)}}}, 1, 8*time.Second)
+		ans := superviseJob(rJob{Sources: []map[string]string{{"p.go": c.source()}}, Queries: []rQuery{{Pkg: 0, Func: fmt.Sprintf("F%d", c.Q)}}}, 1, 8*time.Second)
 		c.out, c.orc, c.have = ans[0].Out, ans[0].Oracle, true
 	}
 	return c.out
@@ -751,7 +755,7 @@ func progBatch(cases []Case) []string {
 			for i, c := range cases[sh.start:sh.end] {
 				pc := c.(*progCase)
 				job.Sources = append(job.Sources, map[string]string{"p.go": pc.source()})
-				job.Queries = append(job.Queries, rQuery{i, fmt.Sprintf("F%d", pc.Q)})
+				job.Queries = append(job.Queries, rQuery{Pkg: i, Func: fmt.Sprintf("F%d", pc.Q)})
 			}
 			ans := superviseJob(job, len(job.Queries), 8*time.Second)
 			for i, c := range cases[sh.start:sh.end] {
@@ -901,6 +905,190 @@ func F(n int) (int, string, bool) {
 `},
 }
 
+// ---- asked-before: two packages, the questions in several orders
+
+// c14Pairs: a package p whose functions hand on results of functions of p/lib, which in turn get them from calls that have
+// no declaration in lib (functions of other packages, methods through a selector or a method value, an interface method,
+// an instantiated generic function)
+var c14Pairs = []struct{ name, p, lib string }{
+	{"foreign-function", `package p
+
+import "` + batchMod + `/c0/lib"
+
+func Open() error { return lib.Open() }
+
+func Wrap() (int, error) { return 1, lib.Wrapped() }
+`, `package lib
+
+import (
+	"errors"
+	"fmt"
+)
+
+func Open() error { return errors.New("cannot open") }
+
+func Wrapped() error { return fmt.Errorf("w: %w", errors.ErrUnsupported) }
+`},
+	{"method-through-selector", `package p
+
+import "` + batchMod + `/c0/lib"
+
+func Load() (any, error) { return lib.Load("k") }
+
+func Check() (err error) {
+	err = lib.Check()
+	return
+}
+`, `package lib
+
+type NotFound struct{ Key string }
+
+func (e *NotFound) Error() string { return "not found: " + e.Key }
+
+type store struct{}
+
+func (store) lookup(key string) (any, error) { return nil, &NotFound{Key: key} }
+
+func (store) verify() error { return &NotFound{} }
+
+func Load(key string) (any, error) { return store{}.lookup(key) }
+
+func Check() error {
+	s := store{}
+	return s.verify()
+}
+`},
+	{"method-value-and-interface", `package p
+
+import "` + batchMod + `/c0/lib"
+
+func Run() error { return lib.Run() }
+
+func Via(d lib.Doer) error { return lib.Via(d) }
+`, `package lib
+
+type Failed struct{}
+
+func (*Failed) Error() string { return "failed" }
+
+type job struct{}
+
+func (job) do() error { return &Failed{} }
+
+type Doer interface{ Do() error }
+
+func Run() error {
+	f := job{}.do
+	return f()
+}
+
+func Via(d Doer) error { return d.Do() }
+`},
+	{"generic-instance", `package p
+
+import "` + batchMod + `/c0/lib"
+
+func First() (int, error) { return lib.First() }
+`, `package lib
+
+type Empty struct{}
+
+func (*Empty) Error() string { return "empty" }
+
+func pick[T any](xs []T) (T, error) {
+	var zero T
+	if len(xs) == 0 {
+		return zero, &Empty{}
+	}
+	return xs[0], nil
+}
+
+func First() (int, error) { return pick([]int{1, 2}) }
+`},
+}
+
+type pairCase struct {
+	Idx    int  `json:"idx"`
+	Lib1st bool `json:"lib_first"` // ask about lib's functions before p's instead of between two rounds over p's
+	out    string
+	orc    string
+	have   bool
+}
+
+func pairFuncNames(src string) []string {
+	var out []string
+	for _, l := range strings.Split(src, "\n") {
+		if strings.HasPrefix(l, "func ") && !strings.HasPrefix(l, "func (") {
+			name := strings.TrimPrefix(l, "func ")
+			name = name[:strings.IndexAny(name, "([")]
+			if name != "" && name[0] >= 'A' && name[0] <= 'Z' {
+				out = append(out, name)
+			}
+		}
+	}
+	return out
+}
+
+func (c *pairCase) Line() string { return "" }
+func (c *pairCase) Run() string {
+	if !c.have {
+		pr := c14Pairs[c.Idx]
+		var ps, ls []rQuery
+		for _, n := range pairFuncNames(pr.p) {
+			ps = append(ps, rQuery{Pkg: 0, Func: n})
+		}
+		for _, n := range pairFuncNames(pr.lib) {
+			ls = append(ls, rQuery{Pkg: 0, Func: n, Sub: "lib"})
+		}
+		var qs []rQuery
+		if c.Lib1st {
+			qs = append(append(qs, ls...), ps...)
+		} else {
+			qs = append(append(append(qs, ps...), ls...), ps...)
+		}
+		ans := superviseJob(rJob{Sources: []map[string]string{{"p.go": pr.p, "lib/lib.go": pr.lib}}, Queries: qs}, len(qs), 8*time.Second)
+		var outs []string
+		byFunc := map[string]string{}
+		for i, a := range ans {
+			if a.Oracle != "" && c.orc == "" {
+				c.orc = qs[i].Sub + "." + qs[i].Func + ": " + a.Oracle
+			}
+			key := qs[i].Sub + "." + qs[i].Func
+			if prev, ok := byFunc[key]; ok && prev != a.Out && c.orc == "" {
+				c.orc = fmt.Sprintf("ResultsOf(%s) answered %s, and %s once the functions of the package it calls into had been asked about", qs[i].Func, prev, a.Out)
+			}
+			byFunc[key] = a.Out
+		}
+		var keys []string
+		for k := range byFunc {
+			keys = append(keys, k)
+		}
+		sort.Strings(keys)
+		for _, k := range keys {
+			outs = append(outs, k+"="+byFunc[k])
+		}
+		c.out, c.have = strings.Join(outs, ";"), true
+	}
+	return c.out
+}
+func (c *pairCase) Oracle(out string) string {
+	if c.orc != "" {
+		return c14Pairs[c.Idx].name + ": " + c.orc
+	}
+	// the same universe asked in the other order (a fresh process) says the same about every function
+	other := &pairCase{Idx: c.Idx, Lib1st: !c.Lib1st}
+	if o := other.Run(); o != out && other.orc == "" {
+		return c14Pairs[c.Idx].name + ": the answers depend on the order of the questions — " + out + " against " + o
+	}
+	return ""
+}
+func (c *pairCase) Shrinks() []Case { return nil }
+func (c *pairCase) Key() string {
+	return fmt.Sprintf("%s lib-first=%v", c14Pairs[c.Idx].name, c.Lib1st)
+}
+func (c *pairCase) Classes() []string { return []string{c14Pairs[c.Idx].name} }
+func (c *pairCase) Nontrivial() bool  { return true }
+
 type extCase struct {
 	Idx  int `json:"idx"`
 	out  string
@@ -911,7 +1099,7 @@ type extCase struct {
 func (c *extCase) Line() string { return "" }
 func (c *extCase) Run() string {
 	if !c.have {
-		ans := superviseJob(rJob{Sources: []map[string]string{{"p.go": c14Extended[c.Idx].src}}, Queries: []rQuery{{0, "F"}}}, 1, 8*time.Second)
+		ans := superviseJob(rJob{Sources: []map[string]string{{"p.go": c14Extended[c.Idx].src}}, Queries: []rQuery{{Pkg: 0, Func: "F"}}}, 1, 8*time.Second)
 		c.out, c.orc, c.have = ans[0].Out, ans[0].Oracle, true
 	}
 	return c.out
@@ -1075,6 +1263,17 @@ func init() {
 			Rule: "programs of 2–6 functions over the core language (1–3 results of int/string/error, 1–3 return statements (all but the last nested in an if, a for, a labelled for or switch, a bare block, a switch case, a range loop or a select), literals, opaque expressions, nil, single-result calls, multi-value forwarding, self and mutual recursion through any result index, literal-only functions) printed to Go, loaded with the real loader (120 per load) and asked in supervised child processes (small maximum stack, time limit, the query that kills a child is reported as not returning and a fresh child carries on); compared: FuncResults.String() with the model; oracle in the child: n lists, each non-empty, alternatives constants or assignable types, same answer twice; literal-only functions against their literals",
 		},
 		xprogStream,
+		{
+			Name: "asked-before", New: func() Case { return &pairCase{} },
+			Enum: func(tier string, yield func(Case)) {
+				for i := range c14Pairs {
+					yield(&pairCase{Idx: i})
+					yield(&pairCase{Idx: i, Lib1st: true})
+				}
+			},
+			EnumExhaustive: false,
+			Rule:           "hand-written pairs of packages: functions of p hand on results of functions of p/lib, which get them from calls without a declaration in lib (errors.New, fmt.Errorf, a method through a selector, a method value, an interface method, an instantiated generic function); one universe asked about p's functions, then lib's, then p's again — and, in a fresh process, about lib's first; oracle: every function gets one answer, whatever was asked before it and in whichever order, plus the in-child checks (shape, assignability, same answer twice)",
+		},
 		{
 			Name: "extended", New: func() Case { return &extCase{} },
 			Enum: func(tier string, yield func(Case)) {
